@@ -36,7 +36,7 @@ META = {
         "heading level map (whose every writer is shown to store only document/section values) or a node under a dominating "
         "isinstance(..., document|section) test. R2: in render_table the tgroup `cols`, the number of colspec nodes and the "
         "rendered header row derive from one length expression; render_table_row attaches exactly one entry per cell token "
-        "on every path; (thorough) markdown-it pads body rows to the header width. R3: every refid store takes its value "
+        "on every path, and any other loop in the package that builds a row of nodes.entry (e.g. a re-implemented build_table_row of the rST state mock) may skip the entry only for a span placeholder (the loop element itself is None/false), never depending on the cell's content; (thorough) markdown-it pads body rows to the header width. R3: every refid store takes its value "
         "from a found registry lookup / docutils set_id (a value of document.nameids, which docutils sets to None for a name defined twice, only under a not-None test), or every path to it passes an XREF_MISSING warning (docutils node "
         "truthiness read from docutils' source). R4: a manually numbered footnote gets its label as first child, an auto "
         "footnote is registered with note_autofootnote instead (docutils inserts the label at index 0), never both; all "
@@ -569,7 +569,7 @@ class _LevelMap:
             return "doc", "nodes.document()"
         if c and c.startswith("docutils.nodes.") and isinstance(e, ast.Call) and c.rsplit(".", 1)[1] not in ("fully_normalize_name", "whitespace_normalize_name", "make_id", "dupname", "unescape"):
             return "other", f"a nodes.{c.rsplit('.', 1)[1]} node"
-        if isinstance(e, ast.Dict):
+        if isinstance(e, ast.Dict) and all(k_ is not None for k_ in e.keys):
             for v in e.values:
                 k, why = self.kind(v, fi, depth + 1)
                 if k not in ("doc", "sec"):
@@ -580,7 +580,31 @@ class _LevelMap:
             it = gen.iter
             if isinstance(it, ast.Call) and isinstance(it.func, ast.Attribute) and it.func.attr == "items" and self._is_map(it.func.value) and isinstance(gen.target, ast.Tuple) and len(gen.target.elts) == 2 and unparse(e.value) == unparse(gen.target.elts[1]):
                 return "map", "filtered copy of the level map"
+            # {key: <value> for ...}: every value is what the value expression evaluates to
+            bound = {x.id for x in ast.walk(gen.target) if isinstance(x, ast.Name)}
+            if not ({x.id for x in ast.walk(e.value) if isinstance(x, ast.Name)} & bound):
+                k, why = self.kind(e.value, fi, depth + 1)
+                if k in ("doc", "sec"):
+                    return "map", f"dict comprehension whose every value is {why}"
+                if k == "other":
+                    return "other", why
             raise Unsupported(f"dict comprehension `{short(e, 60)}` over something other than the level map's items")
+        if isinstance(e, ast.Call) and dotted(e.func) == "dict.fromkeys" and len(e.args) == 2:
+            k, why = self.kind(e.args[1], fi, depth + 1)
+            if k in ("doc", "sec"):
+                return "map", f"dict.fromkeys(..., {why})"
+            if k == "other":
+                return "other", why
+            raise Unsupported(f"value `{short(e.args[1], 40)}` of dict.fromkeys stored in the level map is not understood")
+        if isinstance(e, ast.Dict) and any(k_ is None for k_ in e.keys):
+            # {**map, level: value}
+            for k_, v in zip(e.keys, e.values):
+                kk, why = self.kind(v, fi, depth + 1)
+                if kk == "other":
+                    return kk, why
+                if (k_ is None and kk != "map") or (k_ is not None and kk not in ("doc", "sec")):
+                    raise Unsupported(f"dict display `{short(e, 60)}` stored in the level map is not understood")
+            return "map", "dict display of level-map / document / section values"
         if isinstance(e, ast.Call):
             f = e.func
             if dotted(f) == "dict" and len(e.args) == 1:
@@ -1417,9 +1441,64 @@ def r2_table_width(corpus: Corpus, rep: Report, tier: str):
         extra += [st for st in rr.local_nodes() if isinstance(st, ast.With) and st not in list(ast.walk(lp)) and _attached_ctor_in(st, rr, "docutils.nodes.entry")]
         if extra:
             rep.violation("C03.R2", f"{rr.fq}|entry outside the cell loop", rr.module.site(extra[0]), "an extra nodes.entry is attached outside the per-cell loop")
+    _other_row_builders(corpus, rep, skip={rr.fq})
     if tier == "thorough":
         _mdit_table_padding(corpus, rep)
     rep.expect_min("C03.R2", 4, "cols/header, colspec count, body rows, one entry per cell")
+
+
+def _iteration_counts(cfg, lp: ast.For, weight, exempt) -> set[int]:
+    """Event counts (saturating at 2) over all paths through one iteration of ``lp`` (body entry -> back edge /
+    function exit), ignoring paths that pass an ``exempt`` branch edge."""
+    out: set[int] = set()
+    seen = set()
+    work = [(("T", lp), 0)]
+    while work:
+        n, c = work.pop()
+        if (n, c) in seen:
+            continue
+        seen.add((n, c))
+        if n != ("T", lp) and (n is lp or n == EXIT):
+            out.add(c)
+            continue
+        if exempt(n):
+            continue
+        c2 = min(2, c + (weight(n) if isinstance(n, ast.AST) and n is not lp else 0))
+        for s_ in cfg.succ.get(n, []):
+            work.append((s_, c2))
+    return out
+
+
+def _other_row_builders(corpus: Corpus, rep: Report, skip: set[str]) -> None:
+    """Any other loop in the package that attaches one nodes.entry per cell (e.g. a re-implemented
+    build_table_row of the rST state mock): the entry may only be skipped for a placeholder cell (the loop
+    element itself is None/false: a cell covered by a span), never depending on the cell's content."""
+    for fi in corpus.all_functions():
+        if fi.is_lambda or fi.fq in skip:
+            continue
+        loops = [st for st in fi.local_nodes() if isinstance(st, ast.For) and any(_attached_ctor_in(b, fi, "docutils.nodes.entry") for b in ast.walk(st) if isinstance(b, ast.stmt) and b is not st)]
+        # keep the innermost loops only
+        loops = [l for l in loops if not any(o is not l and any(o is y for y in ast.walk(l)) for o in loops)]
+        for lp in loops:
+            rep.saw_function(fi.fq)
+            cfg = get_cfg(fi)
+            elem = lp.target.id if isinstance(lp.target, ast.Name) else None
+
+            def exempt(n, elem=elem):
+                if elem is None or not (isinstance(n, tuple) and n[0] in ("T", "F") and isinstance(n[1], ast.If)):
+                    return False
+                fs = _truth_facts(n[1].test, n[0] == "T")
+                return len(fs) == 1 and fs[0][0] == elem and fs[0][1] in ("none", "falsy") and isinstance(n[1].test, (ast.Name, ast.Compare, ast.UnaryOp))
+
+            got = _iteration_counts(cfg, lp, lambda x: _attached_ctor_in(x, fi, "docutils.nodes.entry"), exempt)
+            key = f"{fi.fq}|one entry per cell|for {short(lp.target, 30)} in {short(lp.iter, 40)}"
+            site = fi.module.site(lp)
+            if got and got <= {1}:
+                rep.ok("C03.R2", key, site, "exactly one nodes.entry per cell (placeholder cells excepted)")
+            elif not got:
+                rep.error("C03.R2", f"{site} {key}: no complete path through the loop body found")
+            else:
+                rep.violation("C03.R2", key, site, f"some path through the cell loop attaches {sorted(got)} entries for a real cell (a skip that depends on the cell's content, not on the cell being a span placeholder): the row gets fewer/more entries than the table declares columns")
 
 
 def _ancestors(n: ast.AST):
@@ -2179,6 +2258,9 @@ def mutants(corpus: Corpus):
         add("c03-levelmap-rooted-at-temp-root", "C03.R1", base, st, _stmt_text(base, st) + "\n" + _indent(base, st) + "self._level_to_section = {0: temp_root_node}", "store into _level_to_section")
     else:
         out.append(("c03-levelmap-rooted-at-temp-root", "temp_root_node store not found"))
+    if st is not None:
+        for mid, val in (("c03-levelmap-fromkeys-temp-root", "dict.fromkeys(self._level_to_section, temp_root_node)"), ("c03-levelmap-comprehension-temp-root", "{lvl: temp_root_node for lvl in self._level_to_section}")):
+            add(mid, "C03.R1", base, st, _stmt_text(base, st) + "\n" + _indent(base, st) + "self._level_to_section = " + val, "store into _level_to_section")
     f = tf.func("CollectFootnotes.apply")
     st = find_node(f, lambda n: isinstance(n, ast.AugAssign) and unparse(n.target) == "self.document" and unparse(n.value) == "transition")
     add("c03-footnote-transition-next-to-first-footnote", "C03.R1", tf, st.target if st is not None else None, "footnotes[0][1].parent", "CollectFootnotes")
@@ -2194,6 +2276,20 @@ def mutants(corpus: Corpus):
         add("c03-row-skips-empty-cells", "C03.R2", base, first, "if not child.children:\n" + ind + "    continue\n" + ind + _stmt_text(base, first), "one entry per cell", canary=True)
     else:
         out.append(("c03-row-skips-empty-cells", "cell loop not found"))
+    mk = corpus.mod("mocking")
+    f = mk.func("MockState.build_table_row")
+    rt_ = find_node(f, lambda n: isinstance(n, ast.Return) and "build_table_row" in unparse(n))
+    if rt_ is not None and len(f.params) == 3:
+        ind = _indent(mk, rt_)
+        rd, tl = f.params[1], f.params[2]
+        head = f"row = nodes.row()\n{ind}for cell in {rd}:\n{ind}    if cell is None:\n{ind}        continue\n{ind}    morerows, morecols, offset, cellblock = cell\n"
+        attrs = f"{ind}    entry = nodes.entry(**{{k: v for k, v in (('morerows', morerows), ('morecols', morecols)) if v}})\n"
+        v1 = head + f"{ind}    if not ''.join(cellblock):\n{ind}        continue\n" + attrs + f"{ind}    row += entry\n{ind}    self.nested_parse(cellblock, {tl} + offset, entry)\n{ind}return row"
+        v2 = head + f"{ind}    if ''.join(cellblock):\n    " + attrs + f"{ind}        row += entry\n{ind}        self.nested_parse(cellblock, {tl} + offset, entry)\n{ind}return row"
+        add("c03-mock-table-row-skips-empty-cells", "C03.R2", mk, rt_, v1, "build_table_row")
+        add("c03-mock-table-row-entry-only-with-content", "C03.R2", mk, rt_, v2, "build_table_row")
+    else:
+        out.append(("c03-mock-table-row-skips-empty-cells", "MockState.build_table_row no longer delegates with a single return"))
     f = base.func("DocutilsRenderer.render_table")
     c = find_node(f, lambda n: isinstance(n, ast.Assign) and unparse(n.value) == "len(header_row.children)")
     add("c03-cols-from-thead-children", "C03.R2", base, c.value if c is not None else None, "len(header.children)", "tgroup cols")
